@@ -154,6 +154,9 @@ func C05Oneshot(hexops string) {
 
 var c05Ref map[string]string
 
+// mapOrderDiffs: operations whose fresh-process answer differs between the two map iteration orders.
+var mapOrderDiffs [][3]string
+
 // freshReference evaluates every op as the FIRST AND ONLY call of a fresh process.
 func freshReference(ops []string) (map[string]string, error) {
 	self, err := os.Executable()
@@ -180,6 +183,17 @@ func freshReference(ops []string) (map[string]string, error) {
 			return nil, fmt.Errorf("fresh-process reference for %s: %v", short(op), err)
 		}
 		ref[op] = strings.TrimSpace(string(out))
+		// the same call in a fresh process whose map ranges run in the opposite order (Go leaves the order unspecified;
+		// the instrumented build owns it): the answer must not depend on it
+		cmd := exec.Command(self, "-oneshot", arg)
+		cmd.Env = append(os.Environ(), "VRT_MAPORDER=desc")
+		out2, err := cmd.Output()
+		if err != nil {
+			return nil, fmt.Errorf("fresh-process reference (reversed map order) for %s: %v", short(op), err)
+		}
+		if r2 := strings.TrimSpace(string(out2)); r2 != ref[op] {
+			mapOrderDiffs = append(mapOrderDiffs, [3]string{op, ref[op], r2})
+		}
 	}
 	return ref, nil
 }
@@ -235,6 +249,12 @@ func showPath(p []string) string {
 // evalHist: restore the initial package state, replay the history, apply the op, compare.
 func evalHist(w *fw.W, op, aux string) {
 	path := decodePath(aux)
+	for _, d := range mapOrderDiffs {
+		if d[0] == op {
+			w.Fail("map-order-dependence", fmt.Sprintf("as the first call of a fresh process the call %q returns %s when map ranges run in ascending key order and %s when they run in descending order: the answer depends on the unspecified iteration order of a map", op, d[1], d[2]))
+			return
+		}
+	}
 	vrt.Restore()
 	keptResults = nil
 	for _, p := range path {
